@@ -111,6 +111,10 @@ namespace sqf::parser::sqf
             {
                 if ((char)std::tolower(*it) != against[i]) { return 0; }
             }
+            if ((size_t)(it - start) != len)
+            { // the input ended inside of the word
+                return 0;
+            }
             if (it < m_end && ((char)std::tolower(*it) >= 'a' && (char)std::tolower(*it) <= 'z'))
             {
                 return 0;
@@ -133,13 +137,22 @@ namespace sqf::parser::sqf
                     // Check if line comment start
                     if (len_ident_match(iter, "#line"))
                     {
-                        iter += 6;
+                        // Skip the directive and the separator behind it (if the input goes on)
+                        iter += 5;
+                        if (iter != m_end) { ++iter; }
 
                         // Read in line num
                         auto start = iter;
                         for (; iter != m_end && *iter != '\n' && *iter != ' '; iter++);
                         std::string str_tmp(start, iter);
-                        m_line = static_cast<size_t>(std::stoul(str_tmp));
+                        try
+                        {
+                            m_line = static_cast<size_t>(std::stoul(str_tmp));
+                        }
+                        catch (const std::exception&)
+                        { // no (representable) line number: not a line directive
+                            return create_token(etoken::invalid);
+                        }
 
                         // Try skip to file
                         iter += len_match<' ', '\t'>(iter);
